@@ -110,6 +110,13 @@ def judge(run, g, s, r):
         return "strict"
     if r.get("unrealised"):
         return "unrealised"
+    for o in r["obs"]:
+        # the harness recovers a panic raised inside SendNotification / SendRequest so that the batch goes on; in a
+        # user's program it is a crash of the goroutine that called the library
+        if str(o.get("err", "")).startswith("panic:"):
+            hist = " ".join("%s(%s)" % (st["op"], st["arg"]) for st in s["steps"])
+            run.diverge("send-panics", "a send panicked inside the library while replaying: %s\n%s" % (hist, o["err"][:400]), replay)
+            return "strict"
     obs = [o for o in r["obs"] if o["op"] == "send"]
     oi = 0
     strict = False
